@@ -367,7 +367,15 @@ def _work_inner(cid, tier, base_seed, indices, per_case_timeout):
     out = []
     for i in indices:
         faulthandler.dump_traceback_later(per_case_timeout, exit=True)
-        case = gen_case(mod, base_seed, tier, i)
+        try:
+            case = gen_case(mod, base_seed, tier, i)
+        except Exception as e:   # noqa  (a bug in a generator must not take the batch down silently)
+            faulthandler.cancel_dump_traceback_later()
+            out.append(dict(status='harness', prop=cid, kind='harness-generator', message=repr(e), nontrivial=False,
+                            events=0, sim_time=0.0, digest='', order_digest='gen', rank_order_digest='', faults={},
+                            probes={}, wall=0.0, finding_key=None, tape_len=0, idx=i, key='gen-%d' % i, P=None,
+                            detail=traceback.format_exc()[-1500:]))
+            continue
         res = run_case(mod, case)
         faulthandler.cancel_dump_traceback_later()
         slim = {k: res[k] for k in ('status', 'prop', 'kind', 'message', 'nontrivial', 'events',
@@ -917,6 +925,11 @@ def main_check(cid, tier, base_seed, jobs=None):
     for ln in lines:
         print(ln)
     n_inconclusive = len(harness)
+    for r in harness:
+        if r['kind'] in ('harness-crash', 'harness-generator'):
+            herr.append('case %d: %s %s' % (r['idx'], r['kind'], (r.get('message') or '')[:300]))
+    if skipped and not herr and any(r['kind'] == 'hang' for r in viol) is False and len(results) < (mod.BUDGET[tier] if not os.environ.get('VERIF_COUNT') else int(os.environ['VERIF_COUNT'])) and wall < mod.WALL[tier] * 0.9:
+        herr.append('batch cut short: %d chunks were not run although the wall cap was not reached' % skipped)
     print('%s %s seed=%d: %d cases (%d distinct non-trivial, %d skipped, %d inconclusive), '
           '%d violations (%d known), %d interleavings, %.1fs on %d workers' % (
               mod.ID, tier, base_seed, len(results), cov['distinct_nontrivial'],
